@@ -111,6 +111,8 @@ def checkRun (pname : String) (env : Env) (plan : Plan) (s : Store) : Option Str
       | some c =>
         if c.parent != some pname then some "C14:current-missing"
         else if s'.revs.any (fun x => labelled pname x && x.number > c.number) then some "C14:current-not-highest"
+        else if ((s.revs.filter (labelled pname)).map (·.number)).Nodup &&
+            s'.revs.any (fun x => labelled pname x && x.name != cur && x.number == c.number) then some "C14:current-not-strictly-highest"
         else if (s.pkg.map (fun q => q.spec.policy)) != some Policy.manual && c.state != State.active then some "C14:current-not-active"
         else none
     | _ => none
